@@ -3,7 +3,7 @@ from contextlib import contextmanager
 from itertools import chain
 from typing import Dict
 
-from rope.base import ast, codeanalyze
+from rope.base import ast, codeanalyze, worder
 from rope.base.change import ChangeContents, ChangeSet
 from rope.base.exceptions import RefactoringError
 from rope.base.utils.datastructures import OrderedSet
@@ -518,10 +518,10 @@ class _ExceptionalConditionChecker:
 
     def _is_on_a_word(self, info, offset):
         prev = info.source[offset]
-        if not (prev.isalnum() or prev == "_") or offset + 1 == len(info.source):
+        if not worder.is_identifier_char(prev) or offset + 1 == len(info.source):
             return False
         next = info.source[offset + 1]
-        return next.isalnum() or next == "_"
+        return worder.is_identifier_char(next)
 
 
 class _ExtractMethodParts(ast.RopeNodeVisitor):
